@@ -10,6 +10,8 @@ CONSTANTS
   NIp6 = 1
   NAk = 1
   V6Set = {FALSE}
+  NoFqdnSet = {FALSE}
+  DnameSet = {FALSE}
   DelSet = {"space"}
   MaxTok = 1
   MaxLines = 1
